@@ -83,6 +83,15 @@ def pickletools_codes():
 
 class C04:
     prop = "C04"
+    level_text = ("Lean theorems over the decoder model for ALL inputs, configurations, hooks and prior states: no panic outcome is "
+                  "reachable (C04_no_panic), every instruction consumes >= 1 byte and the loop needs <= len+1 iterations "
+                  "(C04_consumes, C04_progress), pre-allocation is <= 64 KiB whatever the length field and returned payloads were "
+                  "present (C04_alloc, C04_alloc_payload), unsupported opcode bytes give OpcodeError with that byte (C04_opcode), "
+                  "PROTO > 5 gives ErrInvalidPickleVersion (C04_proto); the model is tied to /repo by a correspondence run on ~20k "
+                  "(quick) inputs per run and by regenerated facts (C04_facts). Real memory/time are measured, not proved.")
+    level_note = ("trusted: Lean kernel + propext/Classical.choice/Quot.sound; the hand-written decoder model (validated against the "
+                  "implementation on every run, exact outcome agreement required); Go runtime behaviour (stack growth, GC) outside the model")
+    technique = "Lean 4 proof over an executable decoder model + differential correspondence (Go vs compiled Lean driver) + go/ast facts"
     lean_module = "Ogorek.Props.C04"
     theorems = ["Ogorek.C04_no_panic", "Ogorek.C04_consumes", "Ogorek.C04_progress", "Ogorek.C04_alloc",
                 "Ogorek.C04_alloc_payload", "Ogorek.C04_opcode", "Ogorek.C04_proto", "Ogorek.C04_facts"]
@@ -218,6 +227,13 @@ class C04:
 
 class C10:
     prop = "C10"
+    level_text = ("Lean theorem C10_trunc: for every input that is exactly one successfully decoded pickle, every proper non-empty "
+                  "prefix yields io.ErrUnexpectedEOF (and C10_empty_is_eof: no bytes yields io.EOF), for all configurations, hooks "
+                  "and prior states; proved from locality/truncation lemmas of the four reader combinators lifted through every opcode "
+                  "(Lemmas/Reader.lean). Tied to /repo by decoding every cut of generated pickles on both sides each run.")
+    level_note = ("trusted: Lean kernel + standard axioms; the decoder model's parse layer (readByte/readFull/copyN/readLine as models of "
+                  "bufio/io), validated on every cut position of ~1700 pickles per quick run")
+    technique = "Lean 4 proof (reader-combinator locality/truncation lemmas, induction over the decode loop) + differential correspondence on all cuts"
     lean_module = "Ogorek.Props.C10"
     theorems = ["Ogorek.C10_empty_is_eof", "Ogorek.C10_trunc"]
     trusted_base = TB_COMMON
@@ -337,6 +353,14 @@ def shape_problems(rendered, cfg, allow_user):
 
 class C16:
     prop = "C16"
+    level_text = ("Lean invariant proof: Inv (stack entries are the mark or documented values; memo, heap containers and hook arguments "
+                  "hold documented values only, never the mark; ByteString only with StrictUnicode; containers of the kind PyDict asks for) "
+                  "holds initially and is preserved by every instruction (C16_step_preserves), hence for every successful Decode and "
+                  "across streams (C16_result_wf, C16_hook_args_wf), and the fully resolved result consists of documented types only "
+                  "(C16_resolved). Tied to /repo by type-shape scans of real results and hook arguments on ~10k inputs per quick run.")
+    level_note = ("trusted: Lean kernel + standard axioms; decoder model (exact correspondence on every explored input); the hypothesis that "
+                  "PersistentLoad returns application objects (HookOK) — whatever it returns is outside the library")
+    technique = "Lean 4 invariant proof by case analysis over all instructions + differential correspondence + type-shape scan of implementation results"
     lean_module = "Ogorek.Props.C16"
     theorems = ["Ogorek.parseArg_insnOK", "Ogorek.C16_step_preserves", "Ogorek.C16_result_wf", "Ogorek.C16_hook_args_wf", "Ogorek.C16_resolved"]
     trusted_base = TB_COMMON
